@@ -15,6 +15,7 @@
 
 #include <errno.h>
 #include <fcntl.h>
+#include <signal.h>
 #include <stdio.h>
 #include <stdlib.h>
 #include <string.h>
@@ -45,9 +46,36 @@ static void WriteAll(int fd, const std::string& s) {
   }
 }
 
+// --trap <ms> <out>...: on SIGINT/SIGTERM/SIGHUP wait <ms>, then write a partial result into every output
+// and exit (a tool that flushes what it has while handling the signal).
+static int g_trap_ms = -1;
+static int g_trap_n = 0;
+static char** g_trap_outs = nullptr;
+static const char kPartial[] = "{\"k\":\"partial\",\"v\":\"trap\",\"ins\":[]}";
+static void OnSignal(int) {
+  struct timespec ts = {g_trap_ms / 1000, (g_trap_ms % 1000) * 1000000L};
+  nanosleep(&ts, nullptr);
+  for (int i = 0; i < g_trap_n; ++i) {
+    int fd = open(g_trap_outs[i], O_WRONLY | O_CREAT | O_TRUNC, 0644);
+    if (fd >= 0) { ssize_t w = write(fd, kPartial, sizeof(kPartial) - 1); (void)w; close(fd); }
+  }
+  _exit(130);
+}
+
 int main(int argc, char** argv) {
   if (argc < 3) return 97;
   std::string ctl = argv[1], id = argv[2];
+  for (int i = 3; i < argc; ++i) {
+    if (!strcmp(argv[i], "--trap") && i + 1 < argc) {
+      g_trap_ms = atoi(argv[i + 1]);
+      g_trap_outs = argv + i + 2;
+      g_trap_n = argc - (i + 2);
+      signal(SIGINT, OnSignal);
+      signal(SIGTERM, OnSignal);
+      signal(SIGHUP, OnSignal);
+      break;
+    }
+  }
   {
     std::string msg = "S " + id + " " + std::to_string((long)getpid()) + "\n";
     int fd = open((ctl + "/req").c_str(), O_WRONLY);
